@@ -34,7 +34,7 @@ TIERS = {
 
 META = {
     "rule": (
-        "seeds: 11 generated documents (page tree+labels; simple fonts; composite fonts; xref/object streams; graphics/images/"
+        "seeds: 12 generated documents (page tree+labels; simple fonts; composite fonts; xref/object streams; graphics/images/"
         "colour spaces/inline image/nested forms; RC4, AES-128 and AES-256 (R6) encryption; incremental update with /Prev; embedded TrueType "
         "programs with cmap formats 4 and 12; content streams through LZW, RunLength, ASCII85, ASCIIHex, Flate+PNG/TIFF predictors and a filter chain). The generated object stream and "
         "cross-reference stream (dictionary entries and payload) and every stream's /Length are fault sites too; /Prev additionally "
@@ -53,8 +53,8 @@ META = {
         "transitions = fault applications, traces = executions of an entry point on a damaged document, each judged."
     ),
     "bound": {
-        "quick": "structural faults on all 11 seeds x {extract_text, extract_text_to_fp(xml)}; payload truncation at every length on 7 seeds (xref-stream, TrueType and filtered-content payloads also 00/FF at every position); file truncation at every byte of 2 seeds; all 12684 content-stream operator/operand faults",
-        "thorough": "structural + payload (truncate, empty, 4 byte values at every position) + every-byte truncation + content-stream faults on all 11 seeds x 3 entry points",
+        "quick": "structural faults on all 12 seeds x {extract_text, extract_text_to_fp(xml)}; payload truncation at every length on 7 seeds (xref-stream, TrueType and filtered-content payloads also 00/FF at every position); file truncation at every byte of 2 seeds; all 12684 content-stream operator/operand faults",
+        "thorough": "structural + payload (truncate, empty, 4 byte values at every position) + every-byte truncation + content-stream and token faults on all 12 seeds x 3 entry points",
     },
     "assumptions": [
         "single faults only; fault values are one representative per PDF type",
